@@ -26,6 +26,8 @@ def bounds(tier):
     return {
         "L1_alphabet": spaces.SIGMA_VAL,
         "L1_max_len": 5 if tier == "quick" else 6,
+        "L1_core_alphabet": SIGMA_VAL_CORE,
+        "L1_core_max_len": 8 if tier == "quick" else 10,
         "L2_entries": "6 heads x 4 keys x field lists (<=2 over 17 values, 3 over 6) x 2 comma forms x 5 whitespace forms + single-gap family",
         "L3_max_blocks": 2 if tier == "quick" else 3,
         "L4_alphabet": spaces.SIGMA_DOC,
@@ -179,8 +181,13 @@ CONTEXTS = [
 ]
 
 
+# deeper over the characters that drive the value scanner (nesting of braces and quotes)
+SIGMA_VAL_CORE = ["a", "{", "}", '"', ",", " "]
+
+
 def shards(tier):
     out = [("L1", s) for s in seq_shards(spaces.SIGMA_VAL, 5 if tier == "quick" else 6)]
+    out += [("L1core", s) for s in seq_shards(SIGMA_VAL_CORE, 8 if tier == "quick" else 10, min_len=6 if tier == "quick" else 7, prefix_len=3)]
     out += [("L2", i) for i in range(len(HEADS))]
     out += [("L3", i) for i in range(NCAT)]
     out += [("L4", s) for s in seq_shards(spaces.SIGMA_DOC, 5 if tier == "quick" else 6)]
@@ -261,6 +268,15 @@ def run_shard(shard, tier, acc):
             acc.count("L1_wellformed_values")
             for name, pre, post, exp in CONTEXTS:
                 check_doc(pre + v + post, exp(v.strip()), acc, "L1:" + name)
+    elif kind == "L1core":
+        for toks in seq_iter(SIGMA_VAL_CORE, shard[1]):
+            v = "".join(toks)
+            if not dialect.is_value(v):
+                acc.count("L1core_rejected_values")
+                continue
+            acc.count("L1core_wellformed_values")
+            for name, pre, post, exp in CONTEXTS:
+                check_doc(pre + v + post, exp(v.strip()), acc, "L1core:" + name)
     elif kind == "L2":
         for text, exp in l2_cases(shard[1]):
             acc.count("L2_entries")
